@@ -15,6 +15,30 @@ CHECKS = {
                      'operations and backend entries (plus every line of the shared-state closures in the thorough line harnesses); N<=2',
                 technique='deviation-bounded stateless model checking of the implementation (deterministic thread + event-loop scheduler)',
                 engine='E1'),
+    'C02': dict(cat='model_checking', ref='2/C02', engine='E2+E1',
+                text='explicit-state BFS over histories of real snapshot/delete/clean commands by owner/shared/independent users '
+                     '(and an unencrypted repository), depth 3-5; every generated state gets the full invariant (owner restore + '
+                     'independent format reader), every transition the temporal oracle "no chunk is removed while a present '
+                     'snapshot references it"; plus all completion orders (<=1/2 deviations) of pairs of overlapping '
+                     'non-destructive commands from two Repository objects',
+                note='canonical state merging by (snapshots in time order, per-family chunk names); fixed 8-byte chunks; 3 file sets',
+                technique='explicit-state BFS over the real transition function + deviation-bounded schedule exploration'),
+    'C06': dict(cat='model_checking', ref='2/C06', engine='E2',
+                text='all add-key chains (independent/shared/clone x KDF settings incl. BLAKE2b and >64-byte passwords) up to depth '
+                     '2/3 with the complete unlock matrix over passwords and near-miss passwords; all-pairs visibility, restore scope '
+                     'and refusal-before-mutation of foreign deletes; BFS over histories with every user acting against every other',
+                note='clone modelled as shared key; scrypt n in {2,4}', technique='explicit-state BFS + exhaustive key-graph enumeration'),
+    'C07': dict(cat='model_checking', ref='2/C07', engine='E2',
+                text='BFS over crash-free histories: in every state chunk area == names of distinct chunks referenced (independent '
+                     'reader), no payload uploaded under an existing name, families never alias; second pass with one long-lived '
+                     'Repository object per user over all histories of length <= 3/4',
+                note='fixed 8-byte chunks; file sets with identical files, shared prefixes, repeated blocks',
+                technique='explicit-state BFS over the real transition function'),
+    'C08': dict(cat='model_checking', ref='2/C08', engine='E2',
+                text='BFS from clean and planted states (orphans per family, foreign tenant, bystander objects): delete leaves no chunk '
+                     'referenced only by the deleted snapshots and removes nothing else, clean leaves exactly the referenced chunks of '
+                     'the caller family, everything foreign keeps its bytes, also when one backend deletion fails',
+                note='fixed 8-byte chunks; foreign tenant never acts', technique='explicit-state BFS + single-fault enumeration on delete calls'),
 }
 NOT_YET = {}
 
@@ -49,8 +73,11 @@ m = {
         'add_only': True,
     },
     'engines': [
-        {'name': 'E1', 'path': 'mc/dsched.py + mc/explore.py', 'serves_properties': ['C09'],
+        {'name': 'E1', 'path': 'mc/dsched.py + mc/explore.py', 'serves_properties': ['C09', 'C02', 'C03'],
          'kind_free_text': 'deterministic scheduler for real threads + virtual asyncio loop; deviation-bounded stateless explorer'},
+        {'name': 'E2', 'path': 'mc/hist.py', 'serves_properties': ['C02', 'C06', 'C07', 'C08'],
+         'kind_free_text': 'explicit-state BFS over command histories; transitions run the real commands with fresh Repository objects'},
+        {'name': 'E2+E1', 'path': 'mc/hist.py + mc/explore.py', 'serves_properties': ['C02'], 'kind_free_text': 'both'},
     ],
     'checks': checks,
     'not_applicable': na,
